@@ -59,6 +59,7 @@ class RuleResult:
         self.notes = []
         self.floor = 0
         self.stats = {}
+        self.undecideds = []      # (what, why): shape not recognised; neither a pass nor an alarm
 
     def ok(self, sample=None, n=1):
         self.instances += n
@@ -69,10 +70,28 @@ class RuleResult:
         self.instances += 1
         self.findings.append(finding)
 
+    def undecided(self, what, why):
+        """The code no longer has a shape this obligation can be read off, and nothing property-breaking was positively
+        identified: the obligation is reported as not decided (no alarm, no pass)."""
+        self.instances += 1
+        self.undecideds.append((what, why))
+
+    def shape(self, ok, sample, f, node, construct, message, bad=None, rule=None, **kw):
+        """pin helper: ok -> discharged; `bad` (a positively identified property-breaking construct) -> finding; else undecided"""
+        from .core import Func
+        if ok:
+            self.ok(sample)
+            return True
+        if bad:
+            self.bad(Finding(rule or self.rule, f.module.relpath, f.short if isinstance(f, Func) else str(f), construct, message, getattr(node, 'lineno', 0), **kw))
+            return False
+        self.undecided(construct, message)
+        return False
+
     def require_floor(self, floor):
         from .core import AnalysisError
         self.floor = floor
-        if self.instances < floor:
+        if self.instances < floor and not self.undecideds and not self.findings:
             raise AnalysisError('%s: only %d instances matched, hand-confirmed floor is %d '
                                 '(the rule would pass vacuously)' % (self.rule, self.instances, floor))
         return self
